@@ -251,6 +251,20 @@ func isAtomicWrite(f *ssa.Function) bool {
 
 func (a *an) extCall(caller *ssa.Function, ph int, site ssa.Instruction, f *ssa.Function, args []*nd, argT []types.Type, res func(int) *nd) {
 	name := calleeName(f)
+	// the Append… functions of the standard library (strconv.AppendInt, time.Time.AppendFormat, fmt.Appendf,
+	// base64's AppendEncode …) write behind the end of the byte slice they are given and return it: the result is the
+	// caller's own buffer (possibly regrown), not an object of unknown provenance
+	if strings.HasPrefix(f.Name(), "Append") && f.Signature.Results().Len() >= 1 && isByteSlice(f.Signature.Results().At(0).Type()) {
+		for i := range args {
+			if i < len(argT) && isByteSlice(argT[i]) {
+				a.copyEdge(args[i], res(0))
+				if isServe(ph) {
+					a.extCalls = append(a.extCalls, extCallRec{name, caller, nil})
+				}
+				return
+			}
+		}
+	}
 	switch name {
 	case "reflect.ValueOf":
 		a.copyEdge(args[0], res(0))
@@ -492,4 +506,13 @@ func (a *an) setupRoot(fn *ssa.Function) {
 			a.copyEdge(a.ret(fn, phSetup, i), a.pool)
 		}
 	}
+}
+
+func isByteSlice(t types.Type) bool {
+	sl, ok := t.Underlying().(*types.Slice)
+	if !ok {
+		return false
+	}
+	b, ok := sl.Elem().Underlying().(*types.Basic)
+	return ok && b.Kind() == types.Uint8
 }
